@@ -600,3 +600,159 @@ macro_rules! h_rec_offer { ($name:ident, $unw:expr, $body:expr) => {
     #[kani::stub(crate::delta::DeltaSerializer::finish, crate::delta::verif_delta::rec_finish)]
     fn $name() { $body }
 }}
+
+// ---------------------------------------------------------------------------------------------
+// S2: tombstone GC on a copy at an arbitrary instant keeps I1..I4 (C02/C03) and the frontier monotone (C04)
+fn gc_step(mask: u8, vmax: u64) {
+    let c = any_copy3(Some(mask), vmax);
+    let l = any_ledger(vmax);
+    kani::assume(inv_all(&l, &c));
+    // tombstone instants symbolic per key
+    let mut ns = empty_state();
+    let mut ts = [T0; 3];
+    let mut i = 0;
+    while i < 3 {
+        if c.e[i].present {
+            ts[i] = any_instant(1_000);
+            ns.key_values.insert(KEYS[i].to_string(), VersionedValue { value: String::new(), version: c.e[i].version, status: status_of(c.e[i].status, ts[i]) });
+        }
+        i += 1;
+    }
+    ns.max_version = c.max; ns.last_gc_version = c.gc;
+    let now = any_instant(3_000);
+    vtime::set_now(now);
+    let grace = any_duration(1_000);
+    ns.gc_keys_marked_for_deletion(grace);
+    let a = snapshot(&ns);
+    // reference: exactly the marked entries at least one grace period old go; watermark = max(old, highest collected)
+    let mut exp_gc = c.gc;
+    let mut k = 0;
+    while k < 3 {
+        if c.e[k].present {
+            let collect = c.e[k].status != 0 && now >= ts[k] + grace;
+            kani::cover!(collect && now == ts[k] + grace, "entry collected exactly at the grace boundary");
+            if want(P_C06) || want(P_C02) { assert!(a.e[k].present == !collect, "C06: GC removed a live/young entry or kept an expired tombstone"); }
+            if collect && c.e[k].version > exp_gc { exp_gc = c.e[k].version; }
+            if !collect && (want(P_C06) || want(P_C04)) { assert!(a.e[k].version == c.e[k].version && a.e[k].status == c.e[k].status, "C06: GC altered a surviving entry"); }
+        } else { assert!(!a.e[k].present, "C06: GC created an entry"); }
+        k += 1;
+    }
+    if want(P_C06) || want(P_C02) { assert!(a.gc == exp_gc, "C06/C02: GC watermark is not max(previous watermark, highest collected version)"); }
+    if want(P_C04) { assert!(a.gc >= c.gc && a.max == c.max, "C04: GC lowered the watermark or moved max_version"); }
+    if want(P_C03) { assert!(inv_i1(&l, &a) && inv_i2(&l, &a), "C03: GC broke integrity"); }
+    if want(P_C02) { assert!(inv_i3(&l, &a) && inv_i4(&l, &a), "C02: copy not exact up to its frontier after GC"); }
+    std::mem::forget(ns);
+}
+
+// ---------------------------------------------------------------------------------------------
+// C06: differential against a reference versioned map over prefix-related keys (incl. the empty key)
+const K6: [&str; 4] = ["", "a", "ab", "b"];          // sorted: iteration order == index order
+const V6: [&str; 3] = ["", "x", "y"];
+#[derive(Clone, Copy)]
+struct M6 { present: bool, version: u64, status: u8, t: Instant, val: usize }
+fn k6_is_prefix(p: usize, k: usize) -> bool { p == 0 || p == k || (p == 1 && k == 2) }
+fn m6_visible(m: &M6) -> bool { m.present && m.status != 1 }
+fn any_val() -> usize { let v: usize = kani::any(); kani::assume(v < 3); v }
+
+/// readset 0: point reads and counts; 1: full iterations; 2+p: prefix iteration for prefix K6[p]
+fn c06_check_reads(ns: &NodeState, m: &[M6; 4], readset: u8) {
+    if readset == 0 {
+        let mut k = 0;
+        while k < 4 {
+            let vv = ns.get_versioned(K6[k]);
+            assert!(vv.is_some() == m[k].present, "C06: get_versioned presence differs from the model");
+            if let Some(vv) = vv { assert!(vv.version == m[k].version && code_of(&vv.status) == m[k].status && vv.value == V6[m[k].val], "C06: stored entry differs from the model"); }
+            let g = ns.get(K6[k]);
+            assert!(g.is_some() == m6_visible(&m[k]), "C06: get() visibility differs from the model (deleted keys are invisible at once, TTL keys stay visible)");
+            if let Some(v) = g { assert!(v == V6[m[k].val], "C06: get() returned another value"); }
+            assert!(ns.contains_key(K6[k]) == m6_visible(&m[k]), "C06: contains_key differs from the model");
+            k += 1;
+        }
+        let mut n_vis = 0;
+        let mut j = 0;
+        while j < 4 { if m6_visible(&m[j]) { n_vis += 1; } j += 1; }
+        assert!(ns.num_key_values() == n_vis, "C06: num_key_values differs from the model");
+    } else if readset == 1 {
+        let mut j = 0;
+        for (key, val) in ns.key_values() {
+            while j < 4 && !m6_visible(&m[j]) { j += 1; }
+            assert!(j < 4 && key == K6[j] && val == V6[m[j].val], "C06: key_values() yields something the model does not predict at this position");
+            j += 1;
+        }
+        while j < 4 && !m6_visible(&m[j]) { j += 1; }
+        assert!(j == 4, "C06: key_values() misses a visible key");
+        let mut j = 0;
+        for (key, vv) in ns.key_values_including_deleted() {
+            while j < 4 && !m[j].present { j += 1; }
+            assert!(j < 4 && key == K6[j] && vv.version == m[j].version, "C06: key_values_including_deleted() differs from the model");
+            j += 1;
+        }
+        while j < 4 && !m[j].present { j += 1; }
+        assert!(j == 4, "C06: key_values_including_deleted() misses an entry");
+    } else {
+        let p = (readset - 2) as usize;
+        let mut j = 0;
+        for (key, vv) in ns.iter_prefix(K6[p]) {
+            while j < 4 && !(m6_visible(&m[j]) && k6_is_prefix(p, j)) { j += 1; }
+            assert!(j < 4 && key == K6[j] && vv.version == m[j].version, "C06: iter_prefix yields a key the model does not predict (wrong prefix, invisible, or out of order)");
+            j += 1;
+        }
+        while j < 4 && !(m6_visible(&m[j]) && k6_is_prefix(p, j)) { j += 1; }
+        assert!(j == 4, "C06: iter_prefix misses a visible key with that prefix");
+    }
+}
+
+/// one operation (concrete kind `op` on concrete key index `k`, everything else symbolic) from an arbitrary
+/// well-formed state, then the reads of `readset` compared with the reference map
+fn c06_model(mask: u8, op: u8, k: usize, readset: u8) {
+    let vmax: u64 = 1_000;
+    let mut ns = empty_state();
+    let mut m = [M6 { present: false, version: 0, status: 0, t: T0, val: 0 }; 4];
+    let mut maxv = 0u64;
+    let mut i = 0;
+    while i < 4 {
+        if mask & (1 << i) != 0 {
+            let e = M6 { present: true, version: kani::any(), status: any_code(), t: any_instant(1_000), val: any_val() };
+            kani::assume(e.version >= 1 && e.version <= vmax);
+            let mut j = 0;
+            while j < i { if m[j].present { kani::assume(m[j].version != e.version); } j += 1; }
+            // a tombstone carries the empty value (what delete() writes and what replication copies)
+            if e.status == 1 { kani::assume(e.val == 0); }
+            if e.version > maxv { maxv = e.version; }
+            m[i] = e;
+            ns.key_values.insert(K6[i].to_string(), VersionedValue { value: V6[e.val].to_string(), version: e.version, status: status_of(e.status, e.t) });
+        }
+        i += 1;
+    }
+    let mut max: u64 = kani::any(); kani::assume(max >= maxv && max <= vmax);
+    let mut gc: u64 = kani::any(); kani::assume(gc <= max);
+    ns.max_version = max; ns.last_gc_version = gc;
+    let now = any_instant(4_000);
+    vtime::set_now(now);
+    let v = any_val();
+    match op {
+        0 => { ns.set(K6[k], V6[v]); if !(m[k].present && m[k].status == 0 && m[k].val == v) { max += 1; m[k] = M6 { present: true, version: max, status: 0, t: T0, val: v }; } else { kani::cover!(true, "same-value set is a no-op"); } }
+        1 => { ns.set_with_ttl(K6[k], V6[v]); if !(m[k].present && m[k].status == 2 && m[k].val == v) { max += 1; m[k] = M6 { present: true, version: max, status: 2, t: now, val: v }; } }
+        2 => { ns.delete(K6[k]); if m[k].present { max += 1; m[k] = M6 { present: true, version: max, status: 1, t: now, val: 0 }; } }
+        3 => { ns.delete_after_ttl(K6[k]); if m[k].present { max += 1; m[k] = M6 { present: true, version: max, status: 2, t: now, val: m[k].val }; } }
+        _ => {
+            let grace = any_duration(2_000);
+            ns.gc_keys_marked_for_deletion(grace);
+            let mut j = 0;
+            while j < 4 {
+                if m[j].present && m[j].status != 0 && now >= m[j].t + grace {
+                    kani::cover!(now == m[j].t + grace, "collected exactly at the grace boundary");
+                    if m[j].version > gc { gc = m[j].version; }
+                    m[j].present = false;
+                }
+                j += 1;
+            }
+        }
+    }
+    if readset == 0 {
+        assert!(ns.max_version() == max, "C06/C04: max_version differs from the model (effective writes take max+1, others nothing)");
+        assert!(ns.last_gc_version() == gc, "C06: GC watermark differs from the model");
+    }
+    c06_check_reads(&ns, &m, readset);
+    std::mem::forget(ns);
+}
